@@ -282,6 +282,40 @@ def gen_cut(rng, knobs=None):
         prog.append(['settle'])
         prog.append(['snapshot', 'final'])
         return opts, prog
+    if rng.random() < k.get('p_midwrite', 0.15):
+        # the connection ends while a frame of `ep` is being written: the transport stops accepting writes after j frames (fragments),
+        # a (usually fragmented) frame is queued behind whatever is still waiting, and the loss / close() finds the sender inside a write
+        ep = rng.choice(['c', 's'])
+        opts['frag'] = rng.choice([64, 64, 100])
+        prog.append(['pump'])
+        prog.append(['gate_close', ep])
+        kind = rng.choice(['fnf', 'fnf', 'push', 'rr', 'stream', 'channel'])
+        sp = rng.choice([[200, 0], [300, 50], [0, 200], [120, 120], [70, 0], [10, 5]])
+        if kind == 'fnf':
+            prog.append(['fnf', ep, sp])
+        elif kind == 'push':
+            prog.append(['push', ep, rng.choice([9, 100, 300])])
+        elif kind == 'rr':
+            prog.append(['rr', ep, sp, {'mode': 'later', 'resp': spec(rng)}])
+        elif kind == 'stream':
+            prog.append(['stream', ep, sp, rng.choice([1, 5]), src_policy(rng), True])
+        else:
+            prog.append(['channel', ep, sp, rng.choice([1, 3]), dict(src_policy(rng), pub=True, sub=True), True, src_policy(rng), True])
+        if rng.random() < 0.4:
+            prog.append(['fnf', ep, rng.choice([[200, 0], [5, 5]])])        # ... and one more behind it
+        prog.append(['settle'])
+        prog.append(['gate', ep, rng.choice([0, 1, 1, 2, 3, 7])])
+        prog.append(['settle'])
+        end = rng.choice(['eof', 'error', 'close', 'close_peer'])
+        if end in ('eof', 'error'):
+            prog.append(['cut', rng.choice(['c', 's']), end])
+        else:
+            prog.append(['close', ep if end == 'close' else ('s' if ep == 'c' else 'c')])
+        prog.append(['settle'])
+        prog.append(['advance', 450])
+        prog.append(['settle'])
+        prog.append(['snapshot', 'final'])
+        return opts, prog
     cands = [i for i in range(n) if kinds[i] in ('rr', 'stream', 'channel')]
     if cands and how in ('eof', 'error') and rng.random() < k.get('p_terminal_race', 0.35):
         # the responder's terminal frame is the last thing its peer reads before the connection is lost: the terminal signal
@@ -342,6 +376,82 @@ def gen_cut(rng, knobs=None):
     prog.append(['advance', 450])
     prog.append(['settle'])
     prog.append(['snapshot', 'final'])
+    return opts, prog
+
+
+def gen_midframe(rng, knobs=None):
+    """an interaction is ended (cancel / error / completion of the other side) while a fragmented frame of it is half-way: some of its
+    fragments written and the sender blocked, or written and still in flight when the ending frame is handled.  Whatever was left half-way -
+    in the sender's queue or in the peer's reassembly cache - must be gone at quiescence, and the id must be usable again."""
+    k = dict(knobs or {})
+    opts = {'mode': rng.choice(['tcp', 'tcp', 'msg']), 'frag': rng.choice([64, 64, 100]), 'read_buffer': rng.choice([1, 7, 1024]),
+            'max_stream_id': rng.choice([None, 7, 7])}
+    prog = [['start'], ['pump']]
+    init = rng.choice(['c', 'c', 's'])
+    other = 's' if init == 'c' else 'c'
+    kind = rng.choice(['stream', 'stream', 'channel', 'rr'])
+    big = rng.choice([[200, 0], [300, 40], [0, 180], [130, 130]])
+    if kind == 'stream':
+        prog.append(['stream', init, spec(rng, big=False), rng.choice([3, 5, None]), {'src': 'scripted'}, True])
+        emitter, role = other, 'resp'
+    elif kind == 'channel':
+        prog.append(['channel', init, spec(rng, big=False), 5, {'src': 'scripted', 'pub': True, 'sub': True}, True, {'src': 'scripted'}, True])
+        role = rng.choice(['resp', 'req'])
+        emitter = other if role == 'resp' else init
+    else:
+        prog.append(['rr', init, spec(rng, big=False), {'mode': 'later'}])
+        emitter, role = other, 'resp'
+    prog.append(['pump'])
+    if kind == 'channel' and role == 'req':
+        prog.append(['request_n', 0, 'resp', 5])
+        prog.append(['pump'])
+    if rng.random() < 0.5:
+        # a witness whose frames share the sender with the half-written frame
+        prog.append(['stream', init, spec(rng, big=False), 5, {'src': 'scripted'}, True])
+        prog.append(['pump'])
+        prog.append(['emit', 1, 'resp', 30, 0, 0])
+    # the emitter's transport stops accepting writes; a big element (response) is queued and j of its fragments get through
+    prog.append(['gate_close', emitter])
+    if kind == 'rr':
+        prog.append(['respond', 0, big])
+    else:
+        prog.append(['emit', 0, role, big[0], big[1], 1 if rng.random() < 0.3 else 0])
+        if rng.random() < 0.4:
+            prog.append(['emit', 0, role, 20, 0, 0])
+    prog.append(['settle'])
+    prog.append(['gate', emitter, rng.choice([1, 1, 2, 3])])
+    prog.append(['settle'])
+    receiver = init if emitter == other else other
+    # how much of what was written reaches the receiver before it ends the interaction
+    if rng.random() < 0.5:
+        prog.append(['deliver', emitter, rng.choice([None, 1, 40, 70])])
+    # the receiver of the half-sent frame ends the interaction
+    if kind == 'rr':
+        prog.append(['fut_cancel', 0])
+    elif role == 'resp':
+        prog.append(rng.choice([['cancel', 0, 'req'], ['cancel', 0, 'req'], ['error', 0, 'req']]) if kind == 'channel' else ['cancel', 0, 'req'])
+    else:
+        prog.append(rng.choice([['cancel', 0, 'resp'], ['error', 0, 'resp']]))
+    prog.append(['settle'])
+    order = rng.random()
+    if order < 0.4:
+        prog.append(['deliver', receiver, None])      # the ending frame is handled by the emitter first ...
+        prog.append(['deliver', emitter, None])       # ... then what was in flight reaches the (already finished) receiver
+    elif order < 0.8:
+        prog.append(['deliver', emitter, None])
+        prog.append(['deliver', receiver, None])
+    if rng.random() < 0.7:
+        prog.append(['gate', emitter, rng.choice([1, 2])])
+        prog.append(['settle'])
+    prog.append(['gate_open', emitter])
+    prog.append(['pump'])
+    # the id is used again (reduced id space) / other requests are served
+    if opts['max_stream_id'] is None:
+        del opts['max_stream_id']
+    for _ in range(rng.choice([1, 2, 4])):
+        prog.append(['probe', init, spec(rng, big=False), rng.choice([[150, 0], [10, 0]])])
+        prog.append(['pump'])
+    prog.append(['finish'])
     return opts, prog
 
 
